@@ -46,6 +46,7 @@ class Gen:
         self.counter = 0
         self.dead = []              # names whose block has ended
         self.has_probe = False
+        self.has_badcall = False
         self.ret_type = None        # "num" while generating the body of a number-valued method
         self.fret = {}              # method name -> "num" | None
 
@@ -296,6 +297,10 @@ class Gen:
         if rng.random() < 0.5:
             inner.append(ExprS(AssignVar(n, self.num_lit())))
             inner.append(Display(Var(n)))
+        if self.has_badcall and rng.random() < 0.5:
+            # a call that fails while its inputs are bound (the same input name twice) and is handled by its caller:
+            # the blocks around it still end where they end
+            inner.insert(rng.randrange(1, len(inner) + 1), Display(Call("Ftry", [])))
         extra = self.fresh()
         inner.append(Decl([(False, [extra], self.num_lit())]))
         self.dead.append(extra)
@@ -358,6 +363,11 @@ class Gen:
         self.scopes.pop()
         body += self.block(d + 1)
         self.in_loop -= 1
+        if self.rng.random() < 0.4:
+            sig = Continue() if self.rng.random() < 0.7 else Break()
+            body.insert(self.rng.randrange(1, len(body) + 1), Branch(Logic("eq", Var(i), Num(self.rng.randrange(1, 4))), [sig, ]))
+        if self.rng.random() < 0.5:
+            body.append(Display(Var(i)))
         cond = Logic("lt", self.observed(Var(i)), Num(k))
         if self.rng.random() < 0.2:
             cond = Logic("and", cond, self.expr("bool", d + 1))
@@ -384,6 +394,14 @@ class Gen:
         body = self.block(d + 1)
         self.in_loop -= 1
         self.scopes.pop()
+        # the loop variables are looked at on every pass, and a signal is taken on SOME passes only (what the passes after it
+        # see — index, element, remaining passes — is the point)
+        if names and self.rng.random() < 0.7:
+            body.insert(0, Display(*[Var(x) for x in names]))
+        if nn == 2 and self.rng.random() < 0.5:
+            which = Num(self.rng.randrange(1, 4)) if t == "list" else Str(self.rng.choice(KEYS))
+            sig = Continue() if self.rng.random() < 0.7 else Break()
+            body.insert(self.rng.randrange(0, len(body) + 1), Branch(Logic("eq", Var(names[0]), which), [sig]))
         return [Iter(e, names, body)]
 
     def s_break(self, d):
@@ -635,6 +653,12 @@ class Gen:
         nfun = rng.choice([0, 1, 2, 3]) if p.funcs else 0
         ncls = rng.choice([0, 1, 2]) if p.classes else 0
         nexc = rng.choice([0, 0, 1]) if p.exceptions and p.classes else 0
+        if p.scope_faults and rng.random() < 0.6:
+            self.has_badcall = True
+            bad_params = rng.choice([["Nd", "Nd"], ["Na", "Nb", "Na"], ["显示"], ["空", "Nc"]])
+            defs.append(Func("Fbad", bad_params, [Return(Num(1))], []))
+            defs.append(Func("Ftry", [], [ExprS(Call("Fbad", [Num(k) for k in range(len(bad_params))])), Return(Str("no"))],
+                             [("异常", [Return(Str("caught"))])]))
         if p.probe and p.funcs and rng.random() < 0.7:
             self.has_probe = True
             defs.append(Func("Fq", ["Nq"], [Display(Str("q"), Var("Nq")), Return(Var("Nq"))], []))
